@@ -25,7 +25,7 @@ RtBad(r) ==
         \/ (c = "s-denotes" /\ ds.s.m = "end" /\ ~ValMatches(ds.root, r.dump_s))
         \/ (c = "sorted" /\ r.dump_s # SortDump(r.dump))
         \/ (c = "fixpoint" /\ r.s2 # r.s)}
-     ELSE {c \in {"s-wellformed", "s-denotes", "t-denotes", "fixpoint", "display", "vec", "pretty", "rawnum"} :
+     ELSE {c \in {"s-wellformed", "s-denotes", "t-denotes", "fixpoint", "display", "vec", "pretty", "rawnum", "rawnum-copying"} :
         \/ (c = "s-wellformed" /\ ~WellFormedCompact(r.s))
         \/ (c = "t-denotes" /\ ~ValMatches(dt.root, r.dump))                    \* the DOM is the denotation of t (order, duplicates, exact numbers)
         \/ (c = "s-denotes" /\ ds.s.m = "end" /\ ~ValMatches(ds.root, r.dump))  \* ... and s denotes the very same DOM
@@ -33,7 +33,9 @@ RtBad(r) ==
         \/ (c = "display" /\ r.display # r.s)
         \/ (c = "vec" /\ r.vec # r.s)
         \/ (c = "pretty" /\ ds.s.m = "end" /\ r.pretty # PrettyText(ds.root, 0))
-        \/ (c = "rawnum" /\ LET dr == Den(r.sraw) IN ~(dr.s.m = "end" /\ Strip(dr.root) = Strip(dt.root) /\ r.sraw = SerText(dr.root)))}
+        \/ (c = "rawnum" /\ LET dr == Den(r.sraw) IN ~(dr.s.m = "end" /\ Strip(dr.root) = Strip(dt.root) /\ r.sraw = SerText(dr.root)))
+        \* the same through the copying driver (a value that is not at the start of its input), read after the input was overwritten
+        \/ (c = "rawnum-copying" /\ LET dr == Den(r.sraw2) IN ~(dr.s.m = "end" /\ Strip(dr.root) = Strip(dt.root) /\ r.sraw2 = SerText(dr.root)))}
 
 \* ---- C05: serialise a Rust value whose data model is r.model ----
 SerBad(r) ==
